@@ -21,13 +21,21 @@ plus call / return / callout marks.  Checked on every run:
      along target edges, starting at a bottom; callouts of lane l happen with l on top of that stack.
  (d) HAND-DOWN: a thread that set ENQUEUED of lane l (wakeup or invoke_finish) next exchanges the tail of target(l) with the
      address of l (when the target is a lane); a drainer that popped a lane locks exactly that lane next.
-Failures of (b) are concrete failing inputs (seed, perturbation, round); (a), (c), (d) are broken ties."""
+ (e) WHOLE-ROUND REPLAY (lib/hlane_replay.py, Model/HLaneR.v): every thread's recorded operations of a round are abstracted
+     (untrusted) into the model actions it performs — HLane.begin / HLane.gstep with the oracle bit read off the trace — each
+     with its recorded outcome (stack height, lane and program point of the top frame, entry concerned, dq_state word written);
+     HLaneR.sched executes them strictly on the global model: an action is taken only if it is an enabled model step that
+     produces the recorded outcome and respects the exact per-lane chains; the round is reproduced iff ALL actions are
+     consumed, the model ends in the recorded final words with every list empty, every item started once in id order; the
+     boolean invariant HLaneR_proofs.inv_b (proved true on reachable states) is evaluated on the replayed states.
+Failures of (b) are concrete failing inputs (seed, perturbation, round); (a), (c), (d), (e) are broken ties."""
 import common
 import conc
 import driver
+import hlane_replay
 
 PROPERTIES_FILE = "Properties/Properties_C03_hlane.v"
-COQ_DEPS = ["Proofs/HLane_progress.vo"]
+COQ_DEPS = ["Proofs/HLane_progress.vo", "Proofs/HLaneR_proofs.vo"]
 GEN_MODULES = ["Gen_dqstate"]
 LEVEL = "proof"
 TRUSTED = [
@@ -358,6 +366,86 @@ def coq_judge(name, cases):
     return keys, bad
 
 
+PCNAME = {0: "idle", 1: "PA_xchg", 2: "PA_link", 3: "PA_link(was empty)", 4: "PA_probe(MAKE_DIRTY)", 5: "PA_probe", 6: "PA_wake(MAKE_DIRTY)",
+          7: "PA_wake", 8: "PA_tpush", 9: "PW_lock", 10: "PW_tail", 11: "PW_head", 12: "PW_pop", 13: "PW_run", 14: "PW_run(more)",
+          15: "PW_incall", 16: "PW_incall(more)", 17: "PW_invoking", 18: "PW_invoking(more)", 19: "PW_next", 20: "PW_next(more)",
+          21: "PW_unlock", 22: "PW_xor", 23: "PW_finish"}
+REPLAY_IMPORTS = ["Word", "Conc", "Gen_consts", "Gen_dqstate", "HLane", "HLane_inv", "HLaneR", "HLaneR_proofs"]
+
+
+def replay_runs(ctx, runs, sites, every):
+    """(e): runs = [(tag, Run)]; returns (mismatches, distribution, actions replayed)"""
+    from concurrent.futures import ThreadPoolExecutor
+    mism, dist, jobs = [], {}, []
+
+    def bump(k, n=1):
+        dist[k] = dist.get(k, 0) + n
+
+    for ri, (tag, run) in enumerate(runs):
+        bodies, meta = [], []
+        for rnd in sorted(run.rounds):
+            if not run.rounds[rnd]["idle"]:
+                continue
+            try:
+                rows, acts, info = hlane_replay.round_actions(run, rnd, sites)
+            except hlane_replay.Abort as e:
+                mism.append({"what": "(e) round %d cannot be abstracted into model actions: %s" % (rnd, e), "run": tag})
+                continue
+            body, n = hlane_replay.coq_body("r%d" % rnd, rows, acts, chk="inv_b", every=every)
+            bodies.append(body)
+            meta.append((rnd, rows, acts, info, n))
+        if bodies:
+            jobs.append((ri, tag, run, "".join(bodies), meta))
+
+    def one(job):
+        ri, tag, run, text, meta = job
+        return job, driver.coq_eval("c03_hlane_replay_%d" % ri, REPLAY_IMPORTS, hlane_replay.PRELUDE + text, timeout=600)
+
+    with ThreadPoolExecutor(max_workers=4) as ex:
+        results = list(ex.map(one, jobs))
+    total = 0
+    for (ri, tag, run, text, meta), (ok, vals, raw) in results:
+        if not ok or len(vals) != len(meta):
+            mism.append({"what": "(e) Coq evaluation of the replay failed", "run": tag, "detail": raw[-1500:]})
+            continue
+        for (rnd, rows, acts, info, n), v in zip(meta, vals):
+            xs = driver.ints(v)
+            tbl_ok, done, left, bad, idle, stuck, remain, mlen, mlane, mpc = xs[:10]
+            per = [xs[10 + 6 * i:16 + 6 * i] for i in range(len(rows))]
+            bump("rounds replayed")
+            bump("model actions replayed", done)
+            bump("hidden steps among them (plain reads, tail calls, untracked link stores)", info["hidden steps"])
+            bump("states on which inv_b was evaluated", done // every + 1)
+            total += done
+            if not tbl_ok:
+                mism.append({"what": "(e) the forest table of round %d is not a forest (forest_ok fails)" % rnd, "run": tag})
+            if left:
+                a = None
+                if stuck in acts and remain <= len(acts[stuck]):
+                    a = acts[stuck][len(acts[stuck]) - remain]
+                what = "(e) round %d cannot be replayed on HLane.gstep: stopped after %d of %d actions" % (rnd, done, n)
+                if a is not None:
+                    what += "; first unmatched action: thread %d, %s, recorded outcome: stack height %d, top frame %s of lane %d%s%s" % (
+                        stuck, {0: "begin dispatch_async_f(lane %d)" % a["x"], 1: "begin worker pop of bottom %d" % a["x"], 2: "step", 3: "step (need_override)"}[a["kind"]],
+                        a["len"], PCNAME.get(a["sh"], a["sh"]), a["lane"],
+                        ", dq_state of lane %d = %#x" % (a["wl"], a["st"]) if a["st"] >= 0 else "",
+                        ", entry code %d" % a["ent"].v if a["ent"].v not in (None, -1) else "")
+                    what += "; the model has the thread at stack height %d, top frame %s of lane %d" % (mlen, PCNAME.get(mpc, mpc), mlane)
+                mism.append({"what": what, "run": tag, "round": rnd})
+                continue
+            if bad:
+                mism.append({"what": "(e) inv_b is false on %d replayed states of round %d" % (bad, rnd), "run": tag})
+            if not idle:
+                mism.append({"what": "(e) round %d replayed, but a model thread is not idle at the end" % rnd, "run": tag})
+            for (l, p, dep, role, pr, fb), (w, ln, nid, nst, fifo, rq) in zip(rows, per):
+                d = run.lanes[rnd * 100 + l]
+                if w != d["final"] or ln != 0 or nid != nst or not fifo or rq != 0:
+                    mism.append({"what": "(e) round %d replayed, but lane %d ends in the model with dq_state %#x (recorded %#x), %d entries, %d of %d items started, in id order: %d, in the root queue: %d" % (
+                        rnd, l, w, d["final"], ln, nst, nid, fifo, rq), "run": tag})
+                bump("items run in the replays", nst)
+    return mism, dist, total
+
+
 def plan(ctx):
     seeds = [ctx.seed * 100 + i for i in range(6 if ctx.tier == "quick" else 30)]
     return [(sd, 8 if ctx.tier == "quick" else 12, [0, 200, 400][i % 3], 1 if ctx.tier == "quick" else 1 + i % 3) for i, sd in enumerate(seeds)]
@@ -374,7 +462,7 @@ def correspond(ctx):
     if exe is None:
         return {"mismatches": [{"what": "harness build failed", "detail": msg}], "failures": [], "evaluations": 0}
     sites = site_table()
-    all_cases, mism, fails, dist, samples = [], [], [], {}, []
+    all_cases, mism, fails, dist, samples, runs = [], [], [], {}, [], []
     for (seed, rounds, pm, scale) in plan(ctx):
         tag = "seed=%d rounds=%d perturb=%d scale=%d" % (seed, rounds, pm, scale)
         r = run_one(exe, seed, rounds, pm, scale)
@@ -395,6 +483,8 @@ def correspond(ctx):
         for k, v in dd.items():
             dist[k] = dist.get(k, 0) + v
         all_cases += [c + (tag,) for c in cases]
+        if not ff:
+            runs.append((tag, run))
         samples.append("%s: %d lanes in %d forests, %d items, %d word transitions" % (
             tag, len(run.lanes), len(run.rounds), sum(x["items"] for x in run.rounds.values()), len(cases)))
     keys, bad = coq_judge("c03_hlane_words", all_cases) if all_cases else ([], set())
@@ -402,12 +492,18 @@ def correspond(ctx):
         if c[:7] in bad and len([m for m in mism if m.get("tie") == "word_step"]) < 12:
             mism.append({"tie": "word_step", "what": "(a) %s on lane %d: the library wrote %#x over %#x, HLane.word_step %d %d %d %d %d gives another word" % (
                 CODE_NAME[c[0]], c[7]["lane"], c[6], c[5], c[0], c[1], c[2], c[3], c[4]), "where": c[7], "run": c[8]})
-    return {"evaluations": len(all_cases), "distinct_nontrivial": len(keys),
+    rmism, rdist, ractions = replay_runs(ctx, runs if ctx.tier != "quick" else runs[:4], sites, 8 if ctx.tier == "quick" else 1)
+    mism += rmism
+    dist["replay"] = rdist
+    samples.append("whole-round replay: %s" % ", ".join("%s=%d" % kv for kv in sorted(rdist.items())))
+    return {"evaluations": len(all_cases) + ractions, "distinct_nontrivial": len(keys) + rdist.get("rounds replayed", 0),
             "rule": "random forests of serial queues (harness/c03_hlane.c), dispatch_async_f floods with perturbation 0/20/40 %; every successful "
                     "dq_state transition of every lane = HLane.word_step (the generated body with the model's arguments) of its old word, "
                     "evaluated in Coq; per-lane chains init -> final; callouts exclusive per bottom, exactly once, per-lane tail-exchange order; "
-                    "per-thread lock nesting along target edges; lanes handed down to their target; evaluations = word transitions judged, "
-                    "distinct = distinct (program point, arguments, old, new) tuples",
+                    "per-thread lock nesting along target edges; lanes handed down to their target; whole rounds replayed strictly on the global "
+                    "model HLane.gstep (every recorded operation an enabled model step with the recorded outcome, inv_b on the replayed states); "
+                    "evaluations = word transitions judged + model actions replayed, distinct = distinct (program point, arguments, old, new) "
+                    "tuples + rounds replayed",
             "samples": samples[:8], "distribution": dist, "mismatches": mism[:30], "failures": fails[:20]}
 
 
